@@ -2,6 +2,7 @@
 
 Requests (tokens separated by one space; `<cps>` = code points in hex separated by `.`, `-` = empty)
   lex <cps>                      token stream of the source text
+  parse <cps>                    outcome of `parse`: ok | err (Spec: it returns)
   int <form> <n> <cps>           integer literal: Impl lexes+evaluates <cps>; Spec = n; 3rd field = Spec rendering
   rat <n> <cps>                  rational literal `<n>q`
   float <ip>:<frac>:<exp>:<suf> <cps>
@@ -10,7 +11,7 @@ Requests (tokens separated by one space; `<cps>` = code points in hex separated 
   fmt <cps>                      format-string brace scanner on a body
   cls <lo> <hi>                  Unicode classes of the code points lo..hi (decimal)
 Response: `<impl>\t<spec>[\t<diagnostic>]`. -/
-import NoulithModel.Impl.Lex
+import NoulithModel.Impl.Parse
 import NoulithModel.Spec.Literal
 
 namespace Noulith.DriverC15
@@ -228,6 +229,12 @@ def handle (args : List String) : String :=
       let d : Char := if delim = "q" then '\'' else '"'
       outLit (parseEvalLit cs) ++ "\tok s:" ++ hexOfBytes (utf8OfChars b) ++ "\t" ++ renderCps ('R' :: d :: b ++ [d])
     | _, _ => "bad-op"
+  | ["parse", cps] =>
+    match parseCps cps with
+    | some cs =>
+      (match Parse.parse cs with
+        | .ok => "ok" | .err => "err" | .outOfFuel => "out-of-fuel") ++ "\treturns"
+    | none => "bad-op"
   | ["fmt", cps] =>
     match parseCps cps with
     | some cs =>
